@@ -5,7 +5,8 @@
   (datafusion/pruning/src/pruning_predicate.rs) on the fragment
   comparisons `col op lit` / `lit op col` (with `reverse_operator`), `=`/`≠`, `IS [NOT] NULL`,
   boolean column / `NOT column`, general `NOT` (unhandled ⇒ true), `AND`/`OR` with the constant
-  folding, IN / NOT IN lists (≤ `max_in_list_size`), column-vs-column and other unhandled shapes
+  folding, IN / NOT IN lists (≤ `max_in_list_size`), `IS [NOT] DISTINCT FROM` a literal (incl. NULL),
+  column-vs-column and other unhandled shapes
   ⇒ `true`; `evalS` evaluates the rewritten predicate over one container's statistics in SQL
   three-valued logic with unknown statistics as NULL; `keep = (result ≠ false)`.
 -/
@@ -119,6 +120,39 @@ theorem prune_nf {s : CStats} {rows : List Row} (hs : ValidStats s rows) (p : Ex
           · intro l' hl'
             exact statsCmp_nf hs .ne c l' hr (hall l' (List.mem_cons_of_mem _ hl'))
     · simp [evalS, nf]
+  | distinct neg c l =>
+    rintro ⟨r, hr, h⟩
+    simp only [eval, Option.some.injEq] at h
+    cases neg with
+    | false =>
+      simp only [Bool.false_eq_true, if_false, decide_eq_true_eq] at h
+      simp only [prunePred, Bool.false_eq_true, if_false, distinctS, evalS]
+      cases l with
+      | none =>
+        cases hv : r.iv c with
+        | none => exact absurd hv h
+        | some v =>
+          apply nf_or3_left
+          exact nf_and3 (by simp [nf]) (hasNonNulls_nf hs hr hv)
+      | some y =>
+        apply nf_or3_right
+        apply nf_and3 (by simp [nf])
+        cases hv : r.iv c with
+        | none => exact nf_or3_left (hasNulls_nf hs hr hv)
+        | some v =>
+          apply nf_or3_right
+          exact neStats_nf hs c hr hv (by intro e; apply h; rw [hv, e])
+    | true =>
+      simp only [if_true, decide_eq_true_eq] at h
+      simp only [prunePred, if_true, notDistinctS, evalS]
+      cases l with
+      | none =>
+        apply nf_or3_left
+        exact nf_and3 (by simp [nf]) (hasNulls_nf hs hr h)
+      | some y =>
+        apply nf_or3_right
+        apply nf_and3 (by simp [nf])
+        exact nf_and3 (hasNonNulls_nf hs hr h) (eqStats_nf hs c hr h)
 
 /-- **C22.** If the statistics are valid for the container's rows (min/max bound the non-null
     values, null/row counts exact, anything may be unknown) and some row of the container
@@ -157,6 +191,20 @@ example : keep (prunePred (.or (.cmp .gt 0 (some 20)) (.cmp .lt 0 (some 1)))) ex
 example : keep (prunePred (.and (.cmp .ge 0 (some 9)) (.isNull 0))) exStats = true := by decide
 example : keep (prunePred (.cmp .gt 0 (some 9)))
     { exStats with ic := fun _ => ⟨some 3, none, some 1⟩ } = true := by decide
+-- IS [NOT] DISTINCT FROM: `c0 IS DISTINCT FROM 5` is kept when NULLs exist even if min = max = 5,
+-- skipped when there are none; `c0 IS NOT DISTINCT FROM NULL` is skipped without NULLs
+example : keep (prunePred (.distinct false 0 (some 5)))
+    { ic := fun _ => ⟨some 5, some 5, some 1⟩, bc := fun _ => ⟨none, none⟩, rows := some 3 } = true := by
+  decide
+example : keep (prunePred (.distinct false 0 (some 5)))
+    { ic := fun _ => ⟨some 5, some 5, none⟩, bc := fun _ => ⟨none, none⟩, rows := some 3 } = true := by
+  decide
+example : keep (prunePred (.distinct false 0 (some 5)))
+    { ic := fun _ => ⟨some 5, some 5, some 0⟩, bc := fun _ => ⟨none, none⟩, rows := some 3 } = false := by
+  decide
+example : keep (prunePred (.distinct true 0 none))
+    { ic := fun _ => ⟨some 5, some 7, some 0⟩, bc := fun _ => ⟨none, none⟩, rows := some 3 } = false := by
+  decide
 -- an all-NULL column is skipped by the null-count wrap even though min/max are unknown
 example : keep (prunePred (.cmp .eq 0 (some 5)))
     { ic := fun _ => ⟨none, none, some 4⟩, bc := fun _ => ⟨none, none⟩, rows := some 4 } = false := by
